@@ -96,9 +96,30 @@ pboolean p_mutex_unlock (PMutex *m)
 	ENV_REQ (m == pp_atomic_mutex && g_held, "the held global atomic mutex is unlocked");
 	g_unlocks++; g_held = 0; g_post32 = g_w32; g_post64 = g_w64; env_step (); return TRUE;
 }
-PMutex *p_mutex_new (void) { return (PMutex *) malloc (1); }
-void p_mutex_free (PMutex *m) { free (m); }
+unsigned g_mnew_calls, g_mnew_ok, g_mfree_calls;
+PMutex *p_mutex_new (void) { g_mnew_calls++; if (nondet_bool ()) return NULL; PMutex *m = (PMutex *) malloc (1); __CPROVER_assume (m != NULL); g_mnew_ok++; return m; }
+void p_mutex_free (PMutex *m) { if (m != NULL) g_mfree_calls++; free (m); }
 #  include "patomic-sim.c"
+/* the invariant every sim operation starts from -- one global mutex exists -- is established by every init (also the one
+ * after a shutdown) and given up exactly once by shutdown */
+void h_sim_lifecycle (void)
+{
+	pp_atomic_mutex = NULL; g_mnew_calls = g_mnew_ok = g_mfree_calls = 0;
+	p_atomic_thread_init ();
+	OBL (g_mnew_calls == 1 && (pp_atomic_mutex != NULL) == (g_mnew_ok == 1), "init creates the global mutex");
+	unsigned c1 = g_mnew_calls; _Bool have = pp_atomic_mutex != NULL;
+	p_atomic_thread_init ();
+	OBL (g_mnew_calls == c1 + (have ? 0u : 1u), "a second init creates a mutex only if there is none (no leak, no silent no-op)");
+	unsigned ok = g_mnew_ok;
+	p_atomic_thread_shutdown ();
+	OBL (pp_atomic_mutex == NULL && g_mfree_calls == ok, "shutdown releases the mutex exactly once and forgets it");
+	p_atomic_thread_shutdown ();
+	OBL (g_mfree_calls == ok, "a second shutdown releases nothing");
+	unsigned c2 = g_mnew_calls, ok2 = g_mnew_ok;
+	p_atomic_thread_init ();
+	OBL (g_mnew_calls == c2 + 1 && (pp_atomic_mutex != NULL) == (g_mnew_ok == ok2 + 1), "init after shutdown creates the mutex again: operations are never left without their lock");
+	if (pp_atomic_mutex != NULL) CANARY ("re-initialised"); else CANARY ("allocation failed");
+}
 #  define ONE_STEP (g_locks == 1 && g_unlocks == 1 && !g_held)
 #  define ONE_STEP_GET ONE_STEP
 #  define ONE_STEP_SET ONE_STEP
